@@ -37,7 +37,7 @@ Proof. unfold bump. destruct (_ && _); intros H; inversion H; reflexivity. Qed.
 
 (* a new block at the top of the bump region *)
 Lemma Inv_new_block s size cap p' :
-  Inv s -> 0 < size -> size + 7 < W64 -> block_cap size = cap ->
+  Inv s -> 0 < size -> size < W63 -> block_cap size = cap ->
   bump Fixed (pl s) cap = (Some (next_off (pl s)), p') ->
   Inv (mkState p' (live s ++ [(next_off (pl s), size)])).
 Proof.
@@ -69,7 +69,7 @@ Lemma alloc_inv s size r p' :
 Proof.
   intros HI. pose proof HI as [Hlen Hnext Hlive Hbins Hcov]. unfold alloc.
   destruct (N.eqb_spec size 0) as [->|Hnz]; [intros H; inversion H; reflexivity|].
-  destruct (N.leb_spec W64 (size + 7)) as [Hov|Hnov]; [intros H; inversion H; reflexivity|].
+  destruct (N.leb_spec W63 size) as [Hov|Hnov]; [intros H; inversion H; reflexivity|].
   assert (Hpos : 0 < size) by lia.
   destruct (N.leb_spec (align_size size) FAST_BIN_THRESHOLD) as [Hsmall|Hlarge].
   - destruct (bin_of (align_size size)) as [b|] eqn:Hb; [|intros H; inversion H; reflexivity].
@@ -116,7 +116,7 @@ Proof.
   assert (Hin : off < msize (pl s)) by lia.
   unfold dealloc.
   destruct (N.eqb_spec req 0) as [E|_]; [lia|].
-  destruct (N.leb_spec W64 (req + 7)) as [E|_]; [lia|].
+  destruct (N.leb_spec W63 req) as [E|_]; [lia|].
   assert (Hrange : ((0 <=? Z.of_N off) && (Z.of_N off <? Z.of_N (msize (pl s))))%Z = true).
   { apply andb_true_iff. split; [apply Z.leb_le; lia|apply Z.ltb_lt; lia]. }
   rewrite Hrange.
@@ -153,7 +153,7 @@ Lemma dealloc_foreign p off size :
 Proof.
   intros Hout. unfold dealloc.
   destruct (N.eqb_spec size 0) as [->|Hnz]; [cbn; split; [reflexivity|lia]|].
-  destruct (N.leb_spec W64 (size + 7)); [cbn; auto|].
+  destruct (N.leb_spec W63 size); [cbn; auto|].
   assert (Hr : ((0 <=? off) && (off <? Z.of_N (msize p)))%Z = false).
   { apply andb_false_iff. destruct Hout; [left; apply Z.leb_gt; lia|right; apply Z.ltb_ge; lia]. }
   rewrite Hr.
@@ -164,7 +164,7 @@ Qed.
 Lemma alloc_msize p size r p' : alloc Fixed p size = (r, p') -> msize p' = msize p.
 Proof.
   unfold alloc. destruct (size =? 0); [intros H; inversion H; reflexivity|].
-  destruct (W64 <=? size + 7); [intros H; inversion H; reflexivity|].
+  destruct (W63 <=? size); [intros H; inversion H; reflexivity|].
   assert (Hb : forall sz, bump Fixed p sz = (r, p') -> msize p' = msize p).
   { intros sz. unfold bump. destruct (_ && _); intros H; inversion H; reflexivity. }
   destruct (align_size size <=? FAST_BIN_THRESHOLD); [|apply Hb].
@@ -174,7 +174,7 @@ Qed.
 Lemma dealloc_msize p off size ok p' : dealloc Fixed p off size = (ok, p') -> msize p' = msize p.
 Proof.
   unfold dealloc. destruct (size =? 0); [intros H; inversion H; reflexivity|].
-  destruct (W64 <=? size + 7); [intros H; inversion H; reflexivity|].
+  destruct (W63 <=? size); [intros H; inversion H; reflexivity|].
   destruct (align_size size <=? FAST_BIN_THRESHOLD); [|intros H; inversion H; reflexivity].
   destruct (bin_of (align_size size)); [|intros H; inversion H; reflexivity].
   destruct (_ && _)%Z; intros H; inversion H; reflexivity.
